@@ -43,6 +43,9 @@ pub struct Env {
     /// the accepted candidate is re-pinned to its actual decisions before it is reported
     #[serde(default)]
     pub lenient: bool,
+    /// call the program from inside the pool (as under `ThreadPool::install`)
+    #[serde(default)]
+    pub inside: bool,
 }
 
 impl Env {
@@ -56,6 +59,7 @@ impl Env {
             hash_seed: 0,
             clock,
             lenient: false,
+            inside: false,
         }
     }
 
@@ -92,6 +96,7 @@ pub fn draw_env(rng: &mut Rng, clock: (u64, u64), vary_hash: bool) -> Env {
         hash_seed: if vary_hash { rng.next_u64() | 1 } else { 0 },
         clock,
         lenient: false,
+        inside: rng.chance(0.3),
     }
 }
 
@@ -178,6 +183,7 @@ pub fn run_env<T>(env: &Env, f: impl FnOnce(&mut Ctx) -> T) -> (Result<T, String
         replay: env.trace.as_ref().map(|t| {
             t.iter().map(|(k, n, c)| sim::Decision { kind: *k, n: *n, choice: *c }).collect()
         }),
+        inside: env.inside,
     });
     let mut ctx = Ctx { widths: env.widths.clone(), op: 0 };
     let result = catch_unwind(AssertUnwindSafe(|| f(&mut ctx)));
@@ -275,6 +281,12 @@ pub fn shrink_env(env: &Env) -> Vec<Env> {
     if env.hash_seed != 0 {
         let mut e = env.clone();
         e.hash_seed = 0;
+        e.lenient = true;
+        out.push(e);
+    }
+    if env.inside {
+        let mut e = env.clone();
+        e.inside = false;
         e.lenient = true;
         out.push(e);
     }
